@@ -216,6 +216,10 @@ def check(ctx: Ctx) -> None:
                                           "died) the first trace call in the receiver's epilogue aborts it before _terminate_execution()", construct="trace can raise")
         ob.require(ntr >= 1, "no trace function definition found in gateway_base")
 
+    # the receiver's epilogue cannot be derailed by a channel created while it sweeps: `finished` is published first (under the write lock)
+    from .C04 import check_close_all
+    check_close_all(ctx, "C11.k")
+
     # an idle primary thread must be woken by trigger_shutdown, whatever else is still running in the pool
     from .C09 import check_shutdown_wakeup
     check_shutdown_wakeup(ctx, "C11.i")
